@@ -57,23 +57,24 @@ type schedPlan struct {
 }
 
 type schedStats struct {
-	Events            int   `json:"events"`
-	Grants            int   `json:"grants"`
-	Switches          int   `json:"switches"`
-	Steps             int64 `json:"steps"`
-	BlockedOnOnce     int   `json:"blocked_on_running_once"`
-	BlockedOnLock     int   `json:"blocked_on_lock"`
-	OnceBuilt         int   `json:"onces_built"`
-	OnceMultiEnter    int   `json:"onces_entered_by_2plus_tasks"`
-	PreemptInBuild    int   `json:"preempted_inside_once_func"`
-	OtherStepsInBuild int64 `json:"steps_by_other_tasks_while_a_once_ran"`
-	LockAcquires      int   `json:"lock_acquisitions"`
-	CondWaits         int   `json:"cond_waits"`
-	ForeignWakes      int   `json:"wakeups_from_unscheduled_goroutines"`
-	RealBlocking      int   `json:"channel_statements_run_detached"`
-	ForcedGC          int   `json:"forced_gc_cycles"`
-	PoolDrops         int64 `json:"pool_items_dropped"`
-	ExplicitFallbacks int   `json:"explicit_fallbacks"`
+	Events              int   `json:"events"`
+	Grants              int   `json:"grants"`
+	Switches            int   `json:"switches"`
+	Steps               int64 `json:"steps"`
+	BlockedOnOnce       int   `json:"blocked_on_running_once"`
+	BlockedOnLock       int   `json:"blocked_on_lock"`
+	OnceBuilt           int   `json:"onces_built"`
+	OnceMultiEnter      int   `json:"onces_entered_by_2plus_tasks"`
+	PreemptInBuild      int   `json:"preempted_inside_once_func"`
+	OtherStepsInBuild   int64 `json:"steps_by_other_tasks_while_a_once_ran"`
+	LockAcquires        int   `json:"lock_acquisitions"`
+	CondWaits           int   `json:"cond_waits"`
+	ForeignWakes        int   `json:"wakeups_from_unscheduled_goroutines"`
+	RealBlocking        int   `json:"channel_statements_run_detached"`
+	ForcedGC            int   `json:"forced_gc_cycles"`
+	ReadersBehindWriter int   `json:"readers_queued_behind_a_pending_writer"`
+	PoolDrops           int64 `json:"pool_items_dropped"`
+	ExplicitFallbacks   int   `json:"explicit_fallbacks"`
 }
 
 type schedOut struct {
